@@ -55,6 +55,12 @@ type Plan struct {
 	Script []c05.ExtOp `json:"script"`
 	Reads  []Read      `json:"reads"`
 	Ctxs   []CtxReq    `json:"ctxs"`
+	// Writer: a second controller owns a resource "w" of the first cached kind (shared output) and rewrites it on
+	// every wake-up (woken by changes of another kind); a foreign party reacts to each of its writes at once by
+	// flipping a finalizer on "w"; PostMs is the time between the controller's write taking effect and the call
+	// returning to it (cycled). The cache must follow the log however the controller's own writes come back to it.
+	Writer bool  `json:"writer,omitempty"`
+	PostMs []int `json:"postms,omitempty"`
 	BusyMs int         `json:"busyms"`
 	Deliv  []int       `json:"deliv"`
 }
@@ -99,6 +105,11 @@ func Gen(t *rapid.T) Plan {
 	}), 0, 4).Draw(t, "ctxs")
 
 	p.BusyMs = rapid.SampledFrom([]int{0, 0, 50, 600}).Draw(t, "busy")
+
+	if rapid.IntRange(0, 2).Draw(t, "haswriter") == 0 {
+		p.Writer = true
+		p.PostMs = rapid.SliceOfN(rapid.SampledFrom([]int{0, 1, 20, 300}), 1, 4).Draw(t, "postms")
+	}
 	p.Deliv = rapid.SliceOfN(rapid.SampledFrom([]int{0, 0, 0, 5, 200, 700, -5, -200, -700}), 1, 6).Draw(t, "deliv")
 
 	return p
@@ -205,10 +216,16 @@ func runBubble(p Plan) (v hk.Verdict) {
 		cached = append(cached, model.Key{NS: "n1", Typ: types[c]})
 	}
 
-	w, err := sim.NewWorld(sim.WorldOptions{
+	wopts := sim.WorldOptions{
 		Cached:     cached,
 		DelivDelay: func(n int) time.Duration { return time.Duration(p.Deliv[n%len(p.Deliv)]) * time.Millisecond },
-	})
+	}
+
+	if p.Writer {
+		wopts.RTPostLatency = func(_ string, n int) time.Duration { return time.Duration(p.PostMs[n%len(p.PostMs)]) * time.Millisecond }
+	}
+
+	w, err := sim.NewWorld(wopts)
 	if err != nil {
 		v.Failf("harness: %v", err)
 
@@ -234,6 +251,58 @@ func runBubble(p Plan) (v hk.Verdict) {
 		v.Failf("harness: %v", err)
 
 		return v
+	}
+
+	if p.Writer {
+		outTyp := types[p.Cached[0]]
+		inTyp := types[(p.Cached[0]+1)%2]
+
+		writer := &sim.PlainProbe{W: w, NameStr: "writer", Ins: []sim.InSpec{{NS: "n1", Typ: inTyp, Kind: controller.InputWeak}},
+			Outs: []sim.OutSpec{{Typ: outTyp, Kind: controller.OutputShared}},
+			OnWake: func(ctx context.Context, r controller.Runtime, _ *sim.PlainProbe, n int) {
+				_ = r.Modify(ctx, hres.New("n1", outTyp, "w", ""), func(x resource.Resource) error {
+					x.(*hres.R).SetValue("w#" + strconv.Itoa(n)) //nolint:forcetypeassert
+
+					return nil
+				})
+			}}
+		if err := w.RT.RegisterController(writer); err != nil {
+			v.Failf("harness: %v", err)
+
+			return v
+		}
+
+		// the foreign party: reacts to every write of the owner at the instant it takes effect
+		fch := make(chan state.Event)
+		if err := w.Inner.WatchKind(w.Ctx, resource.NewMetadata("n1", outTyp, "", resource.VersionUndefined), fch); err != nil {
+			v.Failf("harness: %v", err)
+
+			return v
+		}
+
+		go func() {
+			ptr := resource.NewMetadata("n1", outTyp, "w", resource.VersionUndefined)
+			lastVal := ""
+
+			for {
+				select {
+				case <-w.Ctx.Done():
+					return
+				case e := <-fch:
+					if e.Resource == nil || e.Resource.Metadata().ID() != "w" || e.Type == state.Destroyed || hres.Value(e.Resource) == lastVal {
+						continue
+					}
+
+					lastVal = hres.Value(e.Resource)
+
+					if e.Resource.Metadata().Finalizers().Has("foreign") {
+						_ = ext.RemoveFinalizer(w.Ctx, ptr, "foreign")
+					} else {
+						_ = ext.AddFinalizer(w.Ctx, ptr, "foreign")
+					}
+				}
+			}
+		}()
 	}
 
 	cs := w.RT.CachedState()
